@@ -178,17 +178,61 @@ def check_C13(ctx, rep):
             return False
         return other[0] == 'bin' and other[1] == 'Add' and ((is_call(other[2], '::dist_sample') and is_field(other[3], 'start', 'Dist')) or
                                                             (is_call(other[3], '::dist_sample') and is_field(other[2], 'start', 'Dist')))
+
+    def cap_operand(x):
+        """the second operand of the cap: self.max, or (where no max is set) a value that cannot lower a non-negative
+        sample to something wrong: +infinity, or a literal that is only used behind its own `> 0.0` test"""
+        alts = x[1] if x[0] == 'phi' else (x,)
+        flat = []
+        for a in alts:
+            a = unload(a) if a[0] in ('pick',) else a
+            if is_call(a, 'unwrap_or') and len(a[2]) == 2:
+                inner = a[2][0]
+                ia = inner[1] if inner[0] == 'phi' else (inner,)
+                for y in ia:
+                    if y[0] == 'agg' and y[2] == 'Some':
+                        flat.append(dict(y[3]).get('0'))
+                    elif not (y[0] == 'agg' and y[2] == 'None'):
+                        flat.append(y)
+                flat.append(a[2][1])
+            else:
+                flat.append(a)
+        has_max = any(is_field(y, 'max', 'Dist') for y in flat)
+        rest = [y for y in flat if not is_field(y, 'max', 'Dist')]
+        ok_rest = all((num(y) is not None and (num(y) == float('inf') or num(y) == 0.0)) or (y[0] == 'cdef' and y[1].endswith('INFINITY')) for y in rest)
+        return has_max, ok_rest
+
+    def judge(v):
+        """(every alternative is max(0.0, sample + start) possibly capped, some alternative is capped by self.max)"""
+        alts = v[1] if v[0] == 'phi' else (v,)
+        allok, capped_by_max = True, False
+        for a in alts:
+            if is_max0(a):
+                continue
+            if is_call(a, '::min') and 'f64' in a[1] and len(a[2]) == 2:
+                m0, x = (a[2][0], a[2][1]) if is_max0(a[2][0]) else (a[2][1], a[2][0])
+                if is_max0(m0):
+                    hm, okr = cap_operand(x)
+                    if okr:
+                        capped_by_max = capped_by_max or hm
+                        continue
+            allok = False
+        return allok, capped_by_max
     n = 0
     for (b, k, v) in ret_defs(fa):
         for S in pf.at(b, k):
             n += 1
             capped = has_cmp(S, 'lt', lambda l: is_const(l, 0.0), lambda r: is_field(r, 'max', 'Dist'), True)
+            exact_capped = is_call(v, '::min') and 'f64' in v[1] and ((is_max0(v[2][0]) and is_field(v[2][1], 'max', 'Dist')) or (is_max0(v[2][1]) and is_field(v[2][0], 'max', 'Dist')))
+            allok, by_max = judge(v)
             if capped:
-                ok = is_call(v, '::min') and 'f64' in v[1] and ((is_max0(v[2][0]) and is_field(v[2][1], 'max', 'Dist')) or (is_max0(v[2][1]) and is_field(v[2][0], 'max', 'Dist')))
-                rep.ob('C13.R2', fn, 'capped-return', ok, 'returns %s when max > 0' % shape(v))
+                rep.ob('C13.R2', fn, 'capped-return', exact_capped or (allok and by_max), 'returns %s when max > 0' % shape(v))
             else:
                 unset = has_cmp(S, 'lt', lambda l: is_const(l, 0.0), lambda r: is_field(r, 'max', 'Dist'), False)
-                rep.ob('C13.R2', fn, 'uncapped-return', unset and is_max0(v), 'returns %s when max is not set' % shape(v))
+                tested = unset or capped
+                # a return that did not branch on max at all must carry the cap in its value
+                ok = (unset and (is_max0(v) or allok)) or (not tested and allok and by_max)
+                rep.ob('C13.R2', fn, 'uncapped-return', ok, 'returns %s when max is not set' % shape(v))
     rep.count_floor('C13.R2', 'return paths of Dist::sample', n, 2)
     clamp_calls = [callee_str(f) for (b, f, a, t) in calls(fa) if callee_str(f).endswith('::clamp')]
     rep.ob('C13.R2', fn, 'no-clamp', not clamp_calls, 'clamp calls: %s' % clamp_calls)
@@ -249,7 +293,8 @@ def check_C13(ctx, rep):
                 continue
             v = expand_calls(ctx, v)
             alts = [a for a in (v[1] if v[0] == 'phi' else (v,)) if num(a) is None]
-            ok = bool(alts) and all(a[0] == 'cast' and a[1] == 'FloatToInt' and contains(a, lambda x: is_call(x, 'Dist::sample')) for a in alts)
+            ok = bool(alts) and all(a[0] == 'cast' and a[1] == 'FloatToInt' and contains(a, lambda x: is_call(x, 'Dist::sample') or is_call(x, 'Dist::dist_sample'))
+                                    for a in alts)
             rep.ob('C13.R5', f, 'saturating-cast', ok, 'returns %s' % shape(v))
         bad = [callee_str(c) for (b, c, a, t) in calls(fa2) if any(x in callee_str(c) for x in ('to_int_unchecked', 'TryInto', 'try_from', 'try_into', 'transmute'))]
         rep.ob('C13.R5', f, 'no-unchecked-conversion', not bad, 'conversions: %s' % bad)
@@ -257,6 +302,9 @@ def check_C13(ctx, rep):
         thorough_rand_distr(ctx, rep)
     rep.assumptions += ["prompt termination and panic-freedom of rand_distr's samplers for validated parameters is NOT decided (their loops depend on random words)",
                         'every CFG path is treated as feasible']
+    rep.rule('C13.R6', 'premise of the sampling guarantees: every distribution that the framework can sample (timeout, duration and limit of each '
+             'action, the value distribution of each counter) is validated by its owner before the machine is accepted')
+    check_all_dists_validated(ctx, rep, 'C13.R6')
     return 'validate/sample interface of distributions: constructor agreement, NaN-absorbing clamp, Uniform guards, speed guards, saturating consumers'
 
 
@@ -330,6 +378,177 @@ def nan_safe_bounds(S, is_x, lo, hi, lo_strict=False):
     return low and up
 
 
+def fa_block_term(fa, b):
+    return fa.blocks[b]['t']
+
+
+def insert_false_edge_fails(fa, pf, b):
+    """the bool returned by the HashSet::insert call of block b is tested, and no Ok return is reachable on a path that saw it
+    return false (the element was already present)"""
+    t = fa.blocks[b]['t']
+    if t['k'] != 'call' or t['d']['pr']:
+        return False
+    seen_test = False
+    for (rb, rk, rv) in ret_defs(fa):
+        if not is_ok_ret(rv):
+            continue
+        for S in pf.at(rb, rk):
+            for f2 in S:
+                if f2[0] == 'bcall' and f2[1].endswith('::insert') and 'HashSet' in f2[1]:
+                    seen_test = True
+                    if f2[3] is False:
+                        return False
+    # the test must exist somewhere: some path carries the false outcome (and, by the loop above, none of them returns Ok)
+    for bb in sorted(fa.cfg.reach):
+        for S in pf.at_entry(bb):
+            if any(f2[0] == 'bcall' and f2[1].endswith('::insert') and 'HashSet' in f2[1] and f2[3] is False for f2 in S):
+                return True
+    return False
+
+
+def check_all_dists_validated(ctx, rep, rid):
+    """every Dist held by an Action variant or a Counter is validated by the owner's validate()"""
+    prog, an = ctx.prog, ctx.an
+    # Action::validate: every Dist field
+    av = prog.fn(FW, 'Action', 'validate')
+    aa = an.get(av)
+    ap = an.paths(av, history=True)
+    avariants = prog.adt('maybenot::action::Action')['variants']
+    covered = set()
+    for (b, k, v) in ret_defs(aa):
+        if not is_ok_ret(v):
+            continue
+        for S in ap.at(b, k):
+            var = [f[2] for f in S if f[0] == 'variant' and f[2] in [x['name'] for x in avariants]]
+            nots = [x for f in S if f[0] == 'notvariant' for x in f[2]]
+            names = var[:1] if var else [x['name'] for x in avariants if x['name'] not in nots]
+            for n in names:
+                covered.add(n)
+                vd = prog.variant('maybenot::action::Action', n)
+                for fl in vd['fields']:
+                    if 'dist::Dist' not in fl['ty']:
+                        continue
+                    fname = fl['name']
+
+                    def reads_field(y):
+                        sf = src_field(y)
+                        return sf is not None and sf[1] == n and sf[2] == fname
+                    called = continue_of(S, lambda y: is_call(y, 'Dist::validate') and contains(y, lambda z: reads_field(z) or (isinstance(z, tuple) and z and z[0] == 'fld' and z[3] == fname and z[1][0] == 'var' and z[1][2] == n)))
+                    optional = 'option::Option<' in fl['ty'][:30]
+                    none = optional and any(f[0] == 'variant' and f[2] == 'None' and contains(f[1], lambda z: isinstance(z, tuple) and z and z[0] == 'fld' and z[3] == fname) for f in S)
+                    rep.ob(rid, av, 'dist-field:%s.%s' % (n, fname), called or none, 'Dist::validate succeeded on %s.%s%s' % (n, fname, ' (or it is None)' if optional else ''))
+    for x in avariants:
+        rep.ob(rid, av, 'variant-covered:' + x['name'], x['name'] in covered, '')
+    cv = prog.fn(FW, 'Counter', 'validate')
+    ca = an.get(cv)
+    cp = an.paths(cv, history=True)
+    n_cv = 0
+    for (b, k, v) in ret_defs(ca):
+        v2 = expand_calls(ctx, v)
+        if v2[0] == 'phi' or is_call(v2, 'Dist::validate'):
+            # combinator form: Ok(()) when there is no dist, else the result of Dist::validate on it
+            alts = v2[1] if v2[0] == 'phi' else (v2,)
+            okc = all(is_ok_ret(a) or (is_call(a, 'Dist::validate') and contains(a, lambda y: isinstance(y, tuple) and y and y[0] == 'var' and y[2] == 'Some' and is_field(y[1], 'dist', 'Counter'))) for a in alts) and \
+                any(is_call(a, 'Dist::validate') for a in alts)
+            n_cv += 1
+            rep.ob(rid, cv, 'counter-dist-validated', okc, 'returns %s' % shape(v2))
+            continue
+        if not is_ok_ret(v):
+            continue
+        for S in cp.at(b, k):
+            n_cv += 1
+            none = any(f[0] == 'variant' and f[2] == 'None' and is_field(f[1], 'dist', 'Counter') for f in S)
+            val = continue_of(S, lambda y: is_call(y, 'Dist::validate'))
+            rep.ob(rid, cv, 'counter-dist-validated', none or val, '')
+    rep.count_floor(rid, 'judged return paths of Counter::validate', n_cv, 1)
+
+
+def check_state_vectors(ctx, rep, r1, r3):
+    """State::validate: every transition that passes has a NaN-safely established probability in (0, 1], a target in range (or a pseudo
+    state), no duplicate target, and every vector a sum <= 1"""
+    prog, an = ctx.prog, ctx.an
+    # State::validate per element
+    sv = prog.fn(FW, 'State', 'validate')
+    sa = an.get(sv)
+    sp = an.paths(sv)  # state mode: per-iteration facts are invalidated when the iterator advances
+    loops = sa.cfg.loops()
+    # the element loop: the loop whose body reads Trans fields
+    elem_loops = []
+    for h, body in loops.items():
+        reads = False
+        for b in body:
+            for k, s in enumerate(sa.blocks[b]['s']):
+                if 'p' in s and s['rv']['k'] != 'setdiscr':
+                    e = sa.rvalue(s['rv'], (b, k))
+                    if contains(e, lambda x: isinstance(x, tuple) and x and x[0] == 'fld' and 'Trans' in x[2]):
+                        reads = True
+        if reads:
+            elem_loops.append(h)
+    inner = [h for h in elem_loops if not any(h2 != h and h2 in loops[h] for h2 in elem_loops)]
+    rep.count_exact(r3, 'transition element loops in State::validate', len(inner), 1)
+
+    def is_t(e, idx):
+        e = unload(e)
+        return e[0] == 'fld' and e[3] == idx and 'Trans' in e[2]
+    end = prog.const_val('maybenot::constants::STATE_END')
+    sig = prog.const_val('maybenot::constants::STATE_SIGNAL')
+    for h in inner:
+        body = loops[h]
+        for (x, lab) in sa.cfg.pred[h]:
+            if x not in body:
+                continue
+            for S in sp.on_edge(x, h):
+                okp = nan_safe_bounds(S, lambda e: is_t(e, '1'), 0.0, 1.0, lo_strict=True)
+                rep.ob(r1, sv, 'probability:Trans.1', okp, 'every element that passes has 0 < p <= 1 established NaN-safely' + ('' if okp else '; witness: ' + show_facts(S)))
+                # target bound
+                in_range = cmp_int_true(S, 'lt', lambda l: is_t(l, '0'), lambda r: r == ('param', 2))
+                is_end = cmp_int_true(S, 'eq', lambda l: is_t(l, '0'), lambda r: (r[0] == 'cdef' and r[1].endswith('STATE_END')) or is_const(r, int(end)))
+                is_sig = cmp_int_true(S, 'eq', lambda l: is_t(l, '0'), lambda r: (r[0] == 'cdef' and r[1].endswith('STATE_SIGNAL')) or is_const(r, int(sig)))
+                rep.ob(r3, sv, 'target-bound', in_range or is_end or is_sig, 'target < num_states or END or SIGNAL on every passing path' + ('' if (in_range or is_end or is_sig) else '; witness: ' + show_facts(S)))
+
+        # the target is inserted into `seen` on every iteration
+        ins = [b for (b, f, a, t) in calls(sa) if b in body and callee_str(f).endswith('::insert') and 'HashSet' in callee_str(f)]
+        from .rules_limits import min_max_on_paths
+        lo, hi = min_max_on_paths(sa, h, set(ins), body, stop_at_header=True)
+        rep.ob(r3, sv, 'target-recorded-every-iteration', lo >= 1, 'insert on every iteration path: min %s' % lo)
+        for (b, f, a, t) in calls(sa):
+            if b in ins:
+                rep.ob(r3, sv, 'records-the-target', is_t(a[1], '0'), 'insert(%s)' % show(a[1]))
+                for S in sp.at_entry(b):
+                    dup = any(f2[0] == 'bcall' and f2[1].endswith('contains') and f2[3] is False and 'HashSet' in f2[1] and
+                              is_t(f2[2][1] if f2[2][1][0] != 'refv' else f2[2][1][1], '0') for f2 in S)
+                    if not dup:
+                        # `if !seen.insert(target) { Err(..)? }`: insert itself reports the duplicate; every path on from its
+                        # false edge must fail
+                        tt = fa_block_term(sa, b)
+                        dup = insert_false_edge_fails(sa, sp, b)
+                    rep.ob(r3, sv, 'duplicate-target-rejected', dup, 'the target is recorded only after seen.contains(target) was false' + ('' if dup else '; witness: ' + show_facts(S)))
+    # per-event sum: at the outer loop back edge
+    outer = [h for h in loops if h not in inner and any(i in loops[h] for i in inner)]
+    rep.count_exact(r3, 'per-event loops in State::validate', len(outer), 1)
+    sph = an.paths(sv, history=True)
+    for h in outer:
+        body = loops[h]
+        for (x, lab) in sa.cfg.pred[h]:
+            if x not in body:
+                continue
+            for S in sph.on_edge(x, h):
+                no_vec = any(f[0] == 'variant' and f[2] == 'None' and not (is_call(unload(f[1]), 'Iterator>::next') or is_call(unload(f[1]), 'Iterator::next')) for f in S)
+                if no_vec:
+                    continue
+
+                def is_sum(e):
+                    if contains(e, lambda y: isinstance(y, tuple) and y and y[0] == 'bin' and y[1] == 'Add' and is_t(y[3], '1')) or e[0] in ('phi', 'rec', 'load'):
+                        return True
+                    # `vector.iter().map(|t| t.1).sum::<f32>()`
+                    return contains(e, lambda y: is_call(y, 'Iterator::sum') or is_call(y, 'Sum>::sum')) and \
+                        contains(e, lambda y: is_call(y, '<impl [T]>::iter') or is_call(y, 'Vec::<T, A>::iter') or is_call(y, 'into_iter'))
+                up = has_cmp(S, 'lt', lambda l: is_const(l, 1.0), is_sum, False) or has_cmp(S, 'le', is_sum, lambda r: is_const(r, 1.0), True)
+                rep.ob(r3, sv, 'per-event-sum-bounded', up, 'sum <= 1 established for every event with a vector' + ('' if up else '; witness: ' + show_facts(S)))
+    # sum accumulation: sum += t.1 on every element iteration
+    return sv, sa, sph
+
+
 def check_C12(ctx, rep):
     prog, an = ctx.prog, ctx.an
     rep.rule('C12.R1', 'NaN-rejection: for every probability/fraction (Machine.max_padding_frac, Machine.max_blocking_frac, Trans.1, the two '
@@ -362,76 +581,7 @@ def check_C12(ctx, rep):
             ok, w = all_paths(npf.at(b, k), lambda S: nan_safe_bounds(S, lambda e: e == ('param', pi) or e == ('refv', ('param', pi)) or unload(e) == ('local', pi), 0.0, 1.0))
             rep.ob('C12.R1', nw, 'fraction:' + nm, ok, 'Framework::new Ok only through NaN-safe bounds of %s' % nm + ('' if ok else '; witness: ' + show_facts(w)))
     rep.count_floor('C12.R1', 'Ok returns of Framework::new', len(oksn), 1)
-    # State::validate per element
-    sv = prog.fn(FW, 'State', 'validate')
-    sa = an.get(sv)
-    sp = an.paths(sv)  # state mode: per-iteration facts are invalidated when the iterator advances
-    loops = sa.cfg.loops()
-    # the element loop: the loop whose body reads Trans fields
-    elem_loops = []
-    for h, body in loops.items():
-        reads = False
-        for b in body:
-            for k, s in enumerate(sa.blocks[b]['s']):
-                if 'p' in s and s['rv']['k'] != 'setdiscr':
-                    e = sa.rvalue(s['rv'], (b, k))
-                    if contains(e, lambda x: isinstance(x, tuple) and x and x[0] == 'fld' and 'Trans' in x[2]):
-                        reads = True
-        if reads:
-            elem_loops.append(h)
-    inner = [h for h in elem_loops if not any(h2 != h and h2 in loops[h] for h2 in elem_loops)]
-    rep.count_exact('C12.R3', 'transition element loops in State::validate', len(inner), 1)
-
-    def is_t(e, idx):
-        e = unload(e)
-        return e[0] == 'fld' and e[3] == idx and 'Trans' in e[2]
-    end = prog.const_val('maybenot::constants::STATE_END')
-    sig = prog.const_val('maybenot::constants::STATE_SIGNAL')
-    for h in inner:
-        body = loops[h]
-        for (x, lab) in sa.cfg.pred[h]:
-            if x not in body:
-                continue
-            for S in sp.on_edge(x, h):
-                okp = nan_safe_bounds(S, lambda e: is_t(e, '1'), 0.0, 1.0, lo_strict=True)
-                rep.ob('C12.R1', sv, 'probability:Trans.1', okp, 'every element that passes has 0 < p <= 1 established NaN-safely' + ('' if okp else '; witness: ' + show_facts(S)))
-                # target bound
-                in_range = cmp_int_true(S, 'lt', lambda l: is_t(l, '0'), lambda r: r == ('param', 2))
-                is_end = cmp_int_true(S, 'eq', lambda l: is_t(l, '0'), lambda r: (r[0] == 'cdef' and r[1].endswith('STATE_END')) or is_const(r, int(end)))
-                is_sig = cmp_int_true(S, 'eq', lambda l: is_t(l, '0'), lambda r: (r[0] == 'cdef' and r[1].endswith('STATE_SIGNAL')) or is_const(r, int(sig)))
-                rep.ob('C12.R3', sv, 'target-bound', in_range or is_end or is_sig, 'target < num_states or END or SIGNAL on every passing path' + ('' if (in_range or is_end or is_sig) else '; witness: ' + show_facts(S)))
-
-        # the target is inserted into `seen` on every iteration
-        ins = [b for (b, f, a, t) in calls(sa) if b in body and callee_str(f).endswith('::insert') and 'HashSet' in callee_str(f)]
-        from .rules_limits import min_max_on_paths
-        lo, hi = min_max_on_paths(sa, h, set(ins), body, stop_at_header=True)
-        rep.ob('C12.R3', sv, 'target-recorded-every-iteration', lo >= 1, 'insert on every iteration path: min %s' % lo)
-        for (b, f, a, t) in calls(sa):
-            if b in ins:
-                rep.ob('C12.R3', sv, 'records-the-target', is_t(a[1], '0'), 'insert(%s)' % show(a[1]))
-                for S in sp.at_entry(b):
-                    dup = any(f2[0] == 'bcall' and f2[1].endswith('contains') and f2[3] is False and 'HashSet' in f2[1] and
-                              is_t(f2[2][1] if f2[2][1][0] != 'refv' else f2[2][1][1], '0') for f2 in S)
-                    rep.ob('C12.R3', sv, 'duplicate-target-rejected', dup, 'the target is recorded only after seen.contains(target) was false' + ('' if dup else '; witness: ' + show_facts(S)))
-    # per-event sum: at the outer loop back edge
-    outer = [h for h in loops if h not in inner and any(i in loops[h] for i in inner)]
-    rep.count_exact('C12.R3', 'per-event loops in State::validate', len(outer), 1)
-    sph = an.paths(sv, history=True)
-    for h in outer:
-        body = loops[h]
-        for (x, lab) in sa.cfg.pred[h]:
-            if x not in body:
-                continue
-            for S in sph.on_edge(x, h):
-                no_vec = any(f[0] == 'variant' and f[2] == 'None' and not (is_call(unload(f[1]), 'Iterator>::next') or is_call(unload(f[1]), 'Iterator::next')) for f in S)
-                if no_vec:
-                    continue
-
-                def is_sum(e):
-                    return contains(e, lambda y: isinstance(y, tuple) and y and y[0] == 'bin' and y[1] == 'Add' and is_t(y[3], '1')) or e[0] in ('phi', 'rec', 'load')
-                up = has_cmp(S, 'lt', lambda l: is_const(l, 1.0), is_sum, False) or has_cmp(S, 'le', is_sum, lambda r: is_const(r, 1.0), True)
-                rep.ob('C12.R3', sv, 'per-event-sum-bounded', up, 'sum <= 1 established for every event with a vector' + ('' if up else '; witness: ' + show_facts(S)))
-    # sum accumulation: sum += t.1 on every element iteration
+    sv, sa, sph = check_state_vectors(ctx, rep, 'C12.R1', 'C12.R3')
     # action / counters validated
     oks_s = [(b, k, v) for (b, k, v) in ret_defs(sa) if is_ok_ret(v)]
     rep.count_floor('C12.R3', 'Ok returns of State::validate', len(oks_s), 1)
@@ -487,58 +637,7 @@ def check_C12(ctx, rep):
         ok2, w2 = all_paths(mp.at(rb, rk), notmany)
         rep.ob('C12.R4', mv, 'zero-states-rejected', ok1, '')
         rep.ob('C12.R4', mv, 'too-many-states-rejected', ok2, '')
-    # Action::validate: every Dist field
-    av = prog.fn(FW, 'Action', 'validate')
-    aa = an.get(av)
-    ap = an.paths(av, history=True)
-    avariants = prog.adt('maybenot::action::Action')['variants']
-    covered = set()
-    for (b, k, v) in ret_defs(aa):
-        if not is_ok_ret(v):
-            continue
-        for S in ap.at(b, k):
-            var = [f[2] for f in S if f[0] == 'variant' and f[2] in [x['name'] for x in avariants]]
-            nots = [x for f in S if f[0] == 'notvariant' for x in f[2]]
-            names = var[:1] if var else [x['name'] for x in avariants if x['name'] not in nots]
-            for n in names:
-                covered.add(n)
-                vd = prog.variant('maybenot::action::Action', n)
-                for fl in vd['fields']:
-                    if 'dist::Dist' not in fl['ty']:
-                        continue
-                    fname = fl['name']
-
-                    def reads_field(y):
-                        sf = src_field(y)
-                        return sf is not None and sf[1] == n and sf[2] == fname
-                    called = continue_of(S, lambda y: is_call(y, 'Dist::validate') and contains(y, lambda z: reads_field(z) or (isinstance(z, tuple) and z and z[0] == 'fld' and z[3] == fname and z[1][0] == 'var' and z[1][2] == n)))
-                    optional = 'option::Option<' in fl['ty'][:30]
-                    none = optional and any(f[0] == 'variant' and f[2] == 'None' and contains(f[1], lambda z: isinstance(z, tuple) and z and z[0] == 'fld' and z[3] == fname) for f in S)
-                    rep.ob('C12.R3', av, 'dist-field:%s.%s' % (n, fname), called or none, 'Dist::validate succeeded on %s.%s%s' % (n, fname, ' (or it is None)' if optional else ''))
-    for x in avariants:
-        rep.ob('C12.R3', av, 'variant-covered:' + x['name'], x['name'] in covered, '')
-    cv = prog.fn(FW, 'Counter', 'validate')
-    ca = an.get(cv)
-    cp = an.paths(cv, history=True)
-    n_cv = 0
-    for (b, k, v) in ret_defs(ca):
-        v2 = expand_calls(ctx, v)
-        if v2[0] == 'phi' or is_call(v2, 'Dist::validate'):
-            # combinator form: Ok(()) when there is no dist, else the result of Dist::validate on it
-            alts = v2[1] if v2[0] == 'phi' else (v2,)
-            okc = all(is_ok_ret(a) or (is_call(a, 'Dist::validate') and contains(a, lambda y: isinstance(y, tuple) and y and y[0] == 'var' and y[2] == 'Some' and is_field(y[1], 'dist', 'Counter'))) for a in alts) and \
-                any(is_call(a, 'Dist::validate') for a in alts)
-            n_cv += 1
-            rep.ob('C12.R3', cv, 'counter-dist-validated', okc, 'returns %s' % shape(v2))
-            continue
-        if not is_ok_ret(v):
-            continue
-        for S in cp.at(b, k):
-            n_cv += 1
-            none = any(f[0] == 'variant' and f[2] == 'None' and is_field(f[1], 'dist', 'Counter') for f in S)
-            val = continue_of(S, lambda y: is_call(y, 'Dist::validate'))
-            rep.ob('C12.R3', cv, 'counter-dist-validated', none or val, '')
-    rep.count_floor('C12.R3', 'judged return paths of Counter::validate', n_cv, 1)
+    check_all_dists_validated(ctx, rep, 'C12.R3')
     # ---- R2
     check_validate_before_ok(ctx, rep, 'C12.R2')
     # Dist::validate arms (shared with C13.R1)
